@@ -24,7 +24,7 @@ TARGETS = ['boltons.tbutils.ParsedException.from_string', 'boltons.tbutils.Parse
            'boltons.tbutils.TracebackInfo.get_formatted', 'boltons.tbutils.TracebackInfo.to_dict', 'boltons.tbutils.ExceptionInfo.from_exc_info',
            'boltons.tbutils.ExceptionInfo.get_formatted', 'boltons.tbutils.ExceptionInfo.to_dict', 'boltons.tbutils._DeferredLine.__str__']
 BOUNDS = {
-    'quick': {'text': 'frames 0..2, each with/without source line, function names identifier / <module> / <lambda>, messages empty / one line / containing ": " / two lines; one free field of 1-2 characters (first from a 106-character alphabet, second from 13 format-relevant characters)',
+    'quick': {'text': 'frames 0..2, each with/without source line, function names identifier / <module> / <lambda>, messages empty / one line / containing ": " / two lines / with an empty or blank middle line; one free field of 1-2 characters (first from a 106-character alphabet, second from 13 format-relevant characters)',
               'live': 'call chains of depth 1..4 over plain / lambda / source-less / run-time generated frames, 6 exception types, 4 message classes'},
     'thorough': {'text': 'frames 0..3, free field of 2 characters'},
 }
@@ -83,7 +83,7 @@ def text_struct_law(ci: int, cj: int) -> bool:
         for nframes in range(1 if field in ('path', 'func', 'source') else 0, fmax + 1):
             for srcmask in range(2 ** nframes):
                 for fkind in range(3):
-                    for mclass in range(4):
+                    for mclass in range(6):
                         r = _text_core(field, free, nframes, srcmask, fkind, mclass, record=False)
                         if r is not True:
                             return r
@@ -100,7 +100,7 @@ def _text_core(field, s, nframes, srcmask, fkind, mclass, record=True):
               'source_line': ('x = call(%d)' % i) if srcmask & (1 << i) else ''}
         frames.append(fr)
     etype = 'pkg.MyError'
-    msg = ['', 'boom', 'key: value: more', 'first\nsecond line'][mclass]
+    msg = ['', 'boom', 'key: value: more', 'first\nsecond line', 'one\n\nthree', 'one\n   \nthree: x'][mclass]
     # place the symbolic field (fields carry no leading/trailing blanks: surround with fixed characters)
     if field == 'path':
         frames[0]['filepath'] = '/d' + s + 'r/x.py'
